@@ -1,7 +1,7 @@
 (* C12 — profiles made by mkprof contain exactly the selected source rows. *)
 From Coq Require Import List NArith ZArith Bool.
 From PyD Require Import Base.Str Model.Tsdb Model.TsdbFiles Model.TsdbDb Model.Hier Model.Tsql Model.Mkprof
-  Proofs.MkprofP Proofs.MkprofP2 Proofs.TsdbDbP.
+  Proofs.MkprofP Proofs.MkprofP2 Proofs.MkprofP3 Proofs.TsdbDbP.
 Import ListNotations.
 
 (* a profile created from sentence lines: record k is built from line k with
@@ -73,3 +73,49 @@ Print Assumptions C12_distinct_identity.
 Theorem C12_distinct_changes_only_then : forall l, no_adj_dup None l = false -> distinct_adj None l <> l.
 Proof. intros l. exact (distinct_adj_changes l None). Qed.
 Print Assumptions C12_distinct_changes_only_then.
+
+(* a profile created from delimited lines (header line naming the columns): one item per
+   data line ... *)
+Theorem C12_delimited_one_item_per_line : forall delim fields names lines i seen recs,
+  delim_records delim fields names i seen lines = Some recs -> length recs = length lines.
+Proof. exact delim_records_length. Qed.
+Print Assumptions C12_delimited_one_item_per_line.
+
+(* ... item k built from line k alone and its position ... *)
+Theorem C12_delimited_records : forall delim fields names lines i seen recs k line,
+  delim_records delim fields names i seen lines = Some recs ->
+  nth_error lines k = Some line ->
+  exists gid, delim_record delim fields names (i + Z.of_nat k) line = Some (nth k recs [], gid) /\
+              nth_error recs k <> None.
+Proof. exact delim_records_nth. Qed.
+Print Assumptions C12_delimited_records.
+
+(* ... a column given in the text written verbatim, a missing identifier the line number, a
+   missing length the number of words of the input ... *)
+Theorem C12_delimited_fields : forall delim fields names i line rec gid,
+  delim_record delim fields names i line = Some (rec, gid) ->
+  exists vals, split_cols delim line = Some vals /\ length vals = length names /\
+    rec = map (fun f =>
+                 match col_lookup (f_name f) names vals with
+                 | Some (Some s) => VStr s
+                 | Some None => VNone
+                 | None =>
+                     if str_eqb (f_name f) I_ID then VInt i
+                     else if str_eqb (f_name f) I_LENGTH then
+                       match col_lookup I_INPUT names vals with
+                       | Some v => VInt (word_count (match v with Some s => s | None => [] end))
+                       | None => VNone
+                       end
+                     else VNone
+                 end) fields.
+Proof. exact delim_record_fields. Qed.
+Print Assumptions C12_delimited_fields.
+
+(* ... and identifiers given in the text pairwise different in an accepted input *)
+Theorem C12_delimited_ids_distinct : forall delim fields names lines i seen recs,
+  delim_records delim fields names i seen lines = Some recs ->
+  forall k line rec id, nth_error lines k = Some line ->
+    delim_record delim fields names (i + Z.of_nat k) line = Some (rec, Some id) ->
+    existsb (raw_eqb' id) seen = false.
+Proof. exact delim_records_ids_distinct. Qed.
+Print Assumptions C12_delimited_ids_distinct.
